@@ -555,6 +555,9 @@ class Tensordot(Base):
             self.value_open_boundary(a, b, res, v)
             return
         k = int(v['num_axes'])
+        if 2 * (a.order + b.order) > 52:  # (the einsum reference has 52 index letters: trains of a long concatenation history)
+            core.ctx().skip('tensordot_order_beyond_reference')
+            return
         want = tensordot_oracle(a.dense(), a.order, b.dense(), b.order, k, v['mode'])
         sc = float(np.linalg.norm(a.dense())) * float(np.linalg.norm(b.dense())) + 1e4 * a.floor() * b.floor()
         tags = ['mode=' + v['mode']]
